@@ -107,6 +107,7 @@ type PeerPolicy struct {
 	WillRetain bool   `json:"will_retain,omitempty"`
 	SilentAtMs int64  `json:"silent_at_ms,omitempty"` // peer stops sending (and reacting) forever (0 = never)
 	NoWait     bool   `json:"no_wait,omitempty"`      // all ops are sent at their times (out-of-turn traffic on purpose)
+	ReuseID    int    `json:"reuse_id,omitempty"`     // on PUBACK for its own QoS 1 PUBLISH the peer at once publishes again with the same message id, this many times
 	// KeepAliveMs > 0: a compliant peer sends PINGREQ whenever it has sent nothing for this long while active.
 	KeepAliveMs int64 `json:"keepalive_ms,omitempty"`
 }
